@@ -26,6 +26,11 @@ RULE = ("two case families from sha256(VERIF_SEED:C02:i). prim: shuffle_buffer "
         "conc, async (two concurrent consumers), rust, tfdata}. Oracle: "
         "multiset of yielded examples == multiset written to the split, "
         "byte-exact, counting process_record called once per yielded example. "
+        "Histories on one handle: two passes alive at once advanced "
+        "alternately, and staggered passes with non-nested lifetimes (a short "
+        "split passed over three times during one long pass; sync, conc, "
+        "rust). 45% of the concurrent cases add source-line pre-emption in "
+        "every file below sedpack/io. "
         "Non-trivial = >1 runnable thread at some decision, or >=2 shards "
         "read; distinct = distinct SHA-1 of the event log / output order.")
 ASSUMPTIONS = [
